@@ -69,6 +69,27 @@ PLAN = {
         "assumptions": [A_N],
         "parts": [n_part("N-reused-call-sites", "C07", 1600, 160000, selftest=64, extra_args=["--family", "count"])],
     },
+    "C10": {
+        "level": "fault_enumeration",
+        "rule": "gate: every signature of a 14-member family (5 genuine bool functions of different shape/ABI/unsafety, 4 whose type text merely ends in `-> bool`, 5 other returns) x both values, judged accept iff the return type is bool, refusal before any OS event; registers: synthetic bool target near/far from the image at 6 page offsets, 8 seeded register files each through the assembly probe; simulation: forced boolean on A64/ARM under the reference interpreters; distinct = (mode, signature, value, placement, offset) tuples",
+        "assumptions": [A_N, A_S],
+        "exhaustive": False,
+        "parts": [n_part("N-gate-and-register-probe", "C10", 504, 50400, selftest=42, extra_args=["--family", "probe"]),
+                  s_part("S-boolean-stubs", "C10", "x86_64_linux,aarch64_linux,arm_linux", 6000, 600000)],
+    },
+    "C13": {
+        "level": "fault_enumeration",
+        "rule": "assembly caller loads 6 integer + 8 vector argument registers, 8 stack slots and the callee-saved set from seeded values, calls a redirected synthetic target (near the image: short trampoline; far: mov rax/jmp rax form) whose fake is an assembly routine recording the register file and returning seeded rax/rdx/xmm0/xmm1; plus Rust-level pairs (13 mixed arguments, [u64;8], (u64,u64), u128 returns); simulation: write-sets of the A64/ARM sequences; distinct = (mode, placement, offset) tuples, 8 register files per scenario",
+        "assumptions": [A_N, A_S],
+        "parts": [n_part("N-register-probe", "C13", 800, 80000, selftest=40, extra_args=["--family", "probe"]),
+                  s_part("S-write-sets", "C13", "x86_64_linux,aarch64_linux", 6000, 600000)],
+    },
+    "C05": {
+        "level": "fault_enumeration",
+        "rule": "scripted body (installs of mixed kinds incl. counted fakes, calls, refusals caught in-body) with one crash point per lifetime: injected user panic at any position, propagating refusal (signature, null, boolean on non-bool, async type, ENOMEM on every RWX mmap, EACCES on mprotect), fake rejecting arguments, over-call, 0-3 unsatisfied expectations at exit alone or with an in-flight panic; 1-50 consecutive lifetimes per process; after each: bytes+behaviour original, <=1 panic, fresh thread uses a new injector (watchdog); distinct = (crash kind, pending, steps, lifetimes) tuples",
+        "assumptions": [A_N],
+        "parts": [n_part("N-crash-points", "C05", 1600, 160000, selftest=64, extra_args=["--family", "crash"])],
+    },
     "C11": {
         "level": "fault_enumeration",
         "rule": "scenario = (variant, page size 4K/16K/64K, target position incl. below 128 MiB, neighbourhood empty/full/full-except-one-page/sparse, kernel policy: faithful or buggified hint rounding/fallback placement/ENOMEM); distinct = class tuples",
